@@ -408,3 +408,152 @@ def scenario_traces(tid0, kind, seed, nvars, nheld, tmpdir, kmax=None,
                                     requests=N, fired=fired, order_changed=moved),
                    events=events)
         tid += 1
+
+
+# ============ S2 for the protocol model: paths of MC_Dyn replayed into dd.bdd ============
+class CountingTrigger:
+    """Replaces dd.bdd._request_reordering: counts the requests made while
+    reordering is enabled and raises the signal at the k-th (never by growth)."""
+
+    def __init__(self, k):
+        self.k = k
+        self.count = 0
+        self.fired = False
+
+    def __call__(self, bdd):
+        if bdd._last_len is None:
+            return
+        self.count += 1
+        if self.count == self.k:
+            self.fired = True
+            raise _bdd._NeedsReordering()
+
+
+def dyn_graph_task(shard, dot, part, nparts, limit, seed, first_tid):
+    """Replay paths of MC_Dyn_protected: each entry of the model (a decorated
+    call with the request firing at the model's position f) is run on the real
+    manager with the request forced at the same position; the outcome flags
+    (signal escaped / own exception / still enabled) and the number of requests
+    of the untriggered run are compared with the model, the tables too; the
+    calls are recorded and judged by TLC like any other execution."""
+    from harness.drivers import graph
+    from harness.drivers.history import build_tt
+    from harness.rec import Trace
+    from harness.drivers.xfer import _quiet_shutdown
+    _quiet_shutdown()          # the copies used for the untriggered runs are discarded with references held
+    last, edges, roots = graph.read_graph(dot)
+    paths, nstates = graph.bfs_paths(last, edges, roots)
+    paths = graph.sample_paths(paths, limit, seed)
+    mine = paths[part::nparts]
+    names = ['a', 'b']
+    conf = dict(entries=0, flags_equal=0, requests_equal=0, tables_equal=0, steps=0, first=None)
+    fps = set()
+    nev = 0
+    with open(shard, 'w') as f:
+        for i, p in enumerate(mine):
+            tr = Trace(first_tid + i, names, seed=seed, meta=dict(driver='dyn_graph'))
+            for nm in names:
+                tr.add_var(nm)
+            b = tr.bdd
+            slot = {}
+
+            def val(a):
+                k, sg = a
+                return sg if k == 0 else sg * slot[k]
+
+            def put(k, res):
+                ret, exc = res
+                if exc:
+                    return
+                old = slot.get(k)
+                slot[k] = ret
+                if old is not None:
+                    tr.decref(old)
+            try:
+                for n in p:
+                    a = last[n]
+                    op = a[0]
+                    if op == 'init':
+                        continue
+                    if op == 'build':
+                        tt = sum(1 << x for x in a[2])
+                        put(a[1], tr.build(tt, lambda: build_tt(tr, names, tt), len(names)))
+                    elif op == 'var' and len(a) == 3:
+                        put(a[1], tr.var(a[2]))
+                    elif op == 'ite' and len(a) == 5:
+                        put(a[1], tr.ite(val(a[2]), val(a[3]), val(a[4])))
+                    elif op == 'drop':
+                        tr.decref(slot.pop(a[1]))
+                    elif op in ('ite', 'var', 'fail'):
+                        e, k, fpos, g, u, v, aa, nm, m_sig, m_err, m_on, m_nreq = a
+                        # the untriggered run on a copy: how many requests does the code make?
+                        import copy as _copy_mod
+                        c2 = _copy_mod.copy(b)
+                        c2._ite_table = dict(b._ite_table)
+                        c2.configure(reordering=True)
+                        t0 = CountingTrigger(0)
+                        install(t0)
+                        try:
+                            try:
+                                if e == 'ite':
+                                    c2.ite(val(g), val(u), val(v))
+                                elif e == 'var':
+                                    c2.var(nm)
+                                else:
+                                    c2.add_expr('%s /\\ zz_undeclared' % nm)
+                            except ValueError:
+                                pass
+                        finally:
+                            uninstall()
+                        conf['entries'] += 1
+                        conf['requests_equal'] += (t0.count == m_nreq)
+                        # the triggered run on the real manager
+                        tr.call('other', dict(what='configure', reordering=True),
+                                lambda: (b.configure(reordering=True), 0)[1])
+                        tr.dynnat = True
+                        trig = CountingTrigger(fpos)
+                        install(trig)
+                        try:
+                            if e == 'ite':
+                                res = tr.ite(val(g), val(u), val(v))
+                            elif e == 'var':
+                                res = tr.var(nm)
+                            else:
+                                res = tr.call('other', dict(what='add_expr_fail', expr=nm),
+                                              lambda: b.add_expr('%s /\\ zz_undeclared' % nm),
+                                              expect_ok=False)
+                        finally:
+                            uninstall()
+                            tr.dynnat = False
+                        r_sig = res[1] == '_NeedsReordering'
+                        r_err = bool(res[1]) and not r_sig
+                        r_on = b._last_len is not None
+                        ok = (r_sig, r_err, r_on) == (m_sig, m_err, m_on) and not getattr(b, '_reordering_context', False)
+                        conf['flags_equal'] += ok
+                        if not ok and conf['first'] is None:
+                            conf['first'] = dict(actions=[repr(last[x]) for x in p[:p.index(n) + 1]],
+                                                 code=[r_sig, r_err, r_on], fired=trig.fired)
+                        tr.call('other', dict(what='configure', reordering=False),
+                                lambda: (b.configure(reordering=False), 0)[1])
+                        if e != 'fail':
+                            put(k, res)
+                    else:
+                        raise RuntimeError('unknown MC_Dyn action %r' % (a,))
+                    conf['steps'] += 1
+                    ms = graph.model_state(dot, n)
+                    if not graph.conformance(dict(m=ms['m']), tr.events[-1]['post']):
+                        conf['tables_equal'] += 1
+            except Exception as ex:
+                from harness import rec as _rec
+                if _rec.salvage(ex) is None:
+                    raise
+            f.write(tr.dumps() + '\n')
+            nev += len(tr.events)
+            fps.add(tuple(repr(last[x]) for x in p))
+            tr.release_all()
+    kinds = {}
+    if part == 0:
+        for v in last.values():
+            kinds[v[0]] = kinds.get(v[0], 0) + 1
+    return dict(shard=shard, traces=len(mine), events=nev, fingerprints=fps, samples=[],
+                model_states=nstates, kinds=kinds, conformance=conf)
